@@ -262,3 +262,40 @@ Proof.
   exists fl. assert (H : Parser.POk fl pats = Parser.parse pex_ext (Parser.fuel_of pex_text) pex_text) by (symmetry; exact E).
   vm_compute in H. injection H as -> ->. repeat split.
 Qed.
+
+(* ---- identifiers of a parsed file.  An identifier is `_` or an alphabetic character followed by `_`, `-` and alphanumeric
+   characters (parse_name / parse_capture of the parser model); below U+0080 these classes are ASCII letters, digits, `_`
+   and `-`, and the external Unicode tables are consulted for code points >= U+0080 only: NO hypothesis on the tables is
+   needed for "no identifier character is below U+0020".  Hence every statement of a parsed file, at any depth, satisfies
+   the hypothesis of display_stmt_single_line_partial (parsed_names_clean), and its text - whatever its string constants
+   are - contains no character below U+0020, in particular no LF and no CR: it is a single line
+   (parsed_stmt_text_single_line).  As before, characters >= U+0080 that some terminals treat as line breaks are governed by
+   the Unicode tables (X for identifiers, E for string constants).  Proofs/ParseLoc.v, Proofs/ParseClean.v. *)
+From TSG Require Proofs.ParseClean.
+
+Theorem parsed_names_clean : forall X fuel text fl pats s,
+  Parser.parse X fuel text = Parser.POk fl pats -> In s (file_stmts fl) -> stmt_names_cleanb s = true.
+Proof.
+  intros X fuel text fl pats s Hp Hin. pose proof (ParseClean.parsed_names_clean_lemma _ _ _ _ _ Hp) as H.
+  rewrite forallb_forall in H. exact (H s Hin).
+Qed.
+
+Theorem parsed_stmt_text_single_line : forall X fuel text fl pats E s,
+  Parser.parse X fuel text = Parser.POk fl pats -> In s (file_stmts fl) ->
+  Forall (fun c => 32 <= c) (display_stmt E s) /\ ~ In 10 (display_stmt E s) /\ ~ In 13 (display_stmt E s).
+Proof.
+  intros X fuel text fl pats E s Hp Hin. pose proof (parsed_names_clean _ _ _ _ _ _ Hp Hin) as Hc.
+  split; [exact (clean_display_stmt E s (stmt_names_cleanb_spec s Hc))|exact (display_stmt_single_line_checked_partial E s Hc)].
+Qed.
+
+(* non-vacuity: the statements of the file of parsed_locs_unique_nonvacuous; the text of the `for` (its nested blocks elided) *)
+Example parsed_stmt_text_nonvacuous :
+  exists fl, Parser.parse pex_ext (Parser.fuel_of pex_text) pex_text = Parser.POk fl [[97]; [98]] /\
+    length (file_stmts fl) = 10%nat /\ forallb stmt_names_cleanb (file_stmts fl) = true /\
+    option_map (display_stmt (dpenv_of [])) (nth_error (file_stmts fl) 1)
+    = Some [102;111;114;32;121;32;105;110;32;91;49;93;32;123;32;46;46;46;32;125;32;97;116;32;40;51;44;32;53;41].   (* for y in [1] { ... } at (3, 5) *)
+Proof.
+  destruct (Parser.parse pex_ext (Parser.fuel_of pex_text) pex_text) as [fl pats| | | |] eqn:E; try (vm_compute in E; discriminate).
+  exists fl. assert (H : Parser.POk fl pats = Parser.parse pex_ext (Parser.fuel_of pex_text) pex_text) by (symmetry; exact E).
+  vm_compute in H. injection H as -> ->. vm_compute. repeat split.
+Qed.
